@@ -13,7 +13,7 @@ ANCHORS = ["src/pylife/stress/equistress.py", "src/pylife/stress/stresssignal.py
 SHARDS = {"quick": 4, "thorough": 16}
 WATCHDOG = {"quick": 900, "thorough": 3000}
 REQUIRED_CLASSES = {t: ["tensor:uniaxial", "tensor:pure_shear", "tensor:hydrostatic", "tensor:repeated_eigenvalues", "tensor:zero",
-                        "tensor:generic", "tensor:rotated_hydrostatic", "input:scalar", "input:columns", "sign:near_tie_not_judged",
+                        "tensor:generic", "tensor:rotated_hydrostatic", "tensor:shear_only_in_plane_12", "tensor:shear_only_in_plane_13", "tensor:shear_only_in_plane_23", "input:scalar", "input:columns", "sign:near_tie_not_judged",
                         "sign:exact_tie_unrotated"]
                     for t in ("quick", "thorough")}
 REQUIRED_MONITORS = ["rotation_invariant:eigen_based", "rotation_invariant:mises^2", "homogeneous", "definition:mises", "definition:tresca",
@@ -87,6 +87,15 @@ def run_case(case, ctx):
     w0, scale = _tensor(kind, rng)
     ctx.tag("tensor:" + kind)
     Q0 = _rot(rng) if kind in ("generic", "repeated_eigenvalues", "uniaxial", "pure_shear") and rng.random() < 0.7 else np.eye(3)
+    if kind in ("generic", "repeated_eigenvalues", "uniaxial", "pure_shear") and rng.random() < 0.3:
+        # a state given in a frame that is turned about one coordinate axis only: two shear components are exactly zero
+        ax = int(rng.integers(0, 3))
+        ang = float(rng.uniform(0.1, 3.0))
+        i, j = [(1, 2), (0, 2), (0, 1)][ax]
+        Q0 = np.eye(3)
+        Q0[i, i] = Q0[j, j] = math.cos(ang)
+        Q0[i, j], Q0[j, i] = -math.sin(ang), math.sin(ang)
+        ctx.tag(f"tensor:shear_only_in_plane_{i + 1}{j + 1}")
     T = Q0 @ np.diag(w0) @ Q0.T
     T = (T + T.T) / 2
     Q = _rot(rng)
